@@ -431,18 +431,40 @@ type vStateWrap struct {
 // vFaultStore: a transient "database busy" fault. While armed, the Write of the next State.Add of a RECEIVED transaction
 // fails the way go-stoabs' bbolt store does when the write lock can not be obtained in time: before a transaction exists,
 // so neither the function nor the OnRollback / AfterCommit hooks run
+type vFaultAt struct {
+	node int
+	mode string // "busy" | "cancel"
+}
+
 type vFaultStore struct {
 	stoabs.KVStore
-	armed int
-	inAdd bool
-	fired int
+	armed       int    // the next Write inside Add fails before a transaction exists
+	cancelArmed int    // the context of the next Add is cancelled while its write transaction runs (rollback at commit)
+	cancel      func() // cancels the context of the Add that is running
+	inAdd       bool
+	fired       int
+	kind        string
 }
 
 func (f *vFaultStore) Write(ctx context.Context, fn func(stoabs.WriteTx) error, opts ...stoabs.TxOption) error {
 	if f.armed > 0 && f.inAdd {
 		f.armed--
 		f.fired++
+		f.kind = "busy"
 		return fmt.Errorf("unable to obtain BBolt write lock: %w", context.DeadlineExceeded)
+	}
+	if f.cancelArmed > 0 && f.inAdd {
+		return f.KVStore.Write(ctx, func(tx stoabs.WriteTx) error {
+			err := fn(tx)
+			if err == nil {
+				// the caller goes away (request context cancelled / expired) while the transaction is being written
+				f.cancelArmed--
+				f.fired++
+				f.kind = "cancel"
+				f.cancel()
+			}
+			return err
+		}, opts...)
 	}
 	return f.KVStore.Write(ctx, fn, opts...)
 }
@@ -450,13 +472,15 @@ func (f *vFaultStore) Write(ctx context.Context, fn func(stoabs.WriteTx) error, 
 func (w *vStateWrap) Add(ctx context.Context, tx dag.Transaction, payload []byte) error {
 	f := w.n.fstore
 	before := f.fired
-	f.inAdd = true
-	err := w.State.Add(ctx, tx, payload)
+	cctx, cancel := context.WithCancel(ctx)
+	defer cancel()
+	f.inAdd, f.cancel = true, cancel
+	err := w.State.Add(cctx, tx, payload)
 	f.inAdd = false
 	if f.fired != before {
 		if t := w.s.u.byRef[tx.Ref()]; t != nil {
 			idx := t.idx
-			w.s.faultTx = &idx
+			w.s.faultTx, w.s.faultKind = &idx, f.kind
 		}
 	}
 	return err
@@ -725,13 +749,14 @@ type vSim struct {
 	dc          map[string]*[3]int       // bucket -> [attempts, success, exact-when-success]
 	injected    map[hash.SHA256Hash]bool // refs of invalid transactions shown to any node
 	deliveries  int
-	restartAt   map[int]int   // fair-suffix round -> node to restart before it
-	faultAt     map[int][]int // fair-suffix round -> nodes whose database is busy for the next Add
-	faults      int           // "database busy" faults armed in this scenario (switches the per-step watchdog on)
-	faultTx     *int          // the transaction whose Add hit the fault in the current step
-	scFirst     int           // index of the scenario op
-	changed     []string      // queued messages whose bytes changed between Send and the moment the stream writes them
-	oversize    []string      // messages the real senders produced that exceed the gRPC message size limit
+	restartAt   map[int]int        // fair-suffix round -> node to restart before it
+	faultAt     map[int][]vFaultAt // fair-suffix round -> faults armed before it
+	faults      int                // "database busy" faults armed in this scenario (switches the per-step watchdog on)
+	faultTx     *int               // the transaction whose Add hit the fault in the current step
+	faultKind   string
+	scFirst     int      // index of the scenario op
+	changed     []string // queued messages whose bytes changed between Send and the moment the stream writes them
+	oversize    []string // messages the real senders produced that exceed the gRPC message size limit
 	goid        string
 	asyncCh     chan vAsyncReq
 	expectAsync int
@@ -961,6 +986,8 @@ func vClassify(err error) string {
 	switch {
 	case strings.Contains(m, "unable to obtain BBolt write lock"):
 		return "err:db-busy"
+	case errors.Is(err, context.Canceled):
+		return "err:ctx-cancelled"
 	case strings.Contains(m, "unknown or expired conversation"):
 		return "err:unknown-conv"
 	case errors.Is(err, errIncorrectEnvelopeType):
@@ -1173,7 +1200,8 @@ type vOp struct {
 	Note    string     `json:"note,omitempty"`
 	Case    string     `json:"case,omitempty"`
 	Mode    string     `json:"mode,omitempty"`
-	Fault   *int       `json:"fault,omitempty"` // observed: the Add of this transaction failed with "database busy"
+	Fault   *int       `json:"fault,omitempty"` // observed: the Add of this transaction hit the armed fault (no effect, error returned)
+	FaultK  string     `json:"faultkind,omitempty"`
 	MaxMsg  int        `json:"maxmsg,omitempty"`
 	Runs    [][3]int   `json:"runs,omitempty"`
 }
@@ -1320,7 +1348,7 @@ func (s *vSim) receive(op *vOp, src, dst int, wire []byte, peerSet map[hash.SHA2
 
 // a step that does not finish: a handler (or the transaction creation) is blocked for ever. Reported with the prefix as
 // replay; the process can not go on (the simulator goroutine is the one that is blocked)
-const vHangTimeout = 12 * time.Second
+const vHangTimeout = 30 * time.Second
 
 func (s *vSim) reportHang(op *vOp) {
 	s.out.emit(vJSON(op), "HANG step does not return")
@@ -1364,13 +1392,17 @@ func (s *vSim) exec(op *vOp) {
 		defer wd.Stop()
 	}
 	s.curSent = nil
-	s.faultTx = nil
-	op.Fault = nil
+	s.faultTx, s.faultKind = nil, ""
+	op.Fault, op.FaultK = nil, ""
 	line := ""
 	switch op.Op {
 	case "fault":
 		s.faults++
-		s.nodes[op.N].fstore.armed = 1
+		if op.Mode == "cancel" {
+			s.nodes[op.N].fstore.cancelArmed = 1
+		} else {
+			s.nodes[op.N].fstore.armed = 1
+		}
 		line = "fault armed"
 	case "tick":
 		n := s.nodes[op.N]
@@ -1456,7 +1488,7 @@ func (s *vSim) exec(op *vOp) {
 	default:
 		line = "bad-op:" + op.Op
 	}
-	op.Fault = s.faultTx
+	op.Fault, op.FaultK = s.faultTx, s.faultKind
 	s.out.emit(vJSON(op), line)
 }
 
@@ -1631,8 +1663,8 @@ func (s *vSim) fairSuffix(maxRounds int, expireEvery int) (rounds int) {
 		if s.allEqual() && len(s.pending) == 0 {
 			return rounds
 		}
-		for _, node := range s.faultAt[rounds] {
-			s.exec(&vOp{Op: "fault", N: node})
+		for _, f := range s.faultAt[rounds] {
+			s.exec(&vOp{Op: "fault", N: f.node, Mode: f.mode})
 		}
 		delete(s.faultAt, rounds)
 		if expireEvery > 0 && rounds%expireEvery == 0 {
